@@ -14,18 +14,18 @@ import (
 // the check compares these cases with the SPEC in Python (permutation, value order, group aggregates, prefix) -
 // tables of thousands of rows are not evaluated inside Coq.
 type sweepCase struct {
-	Mode    string   `json:"mode"` // sweep
-	Op      string   `json:"op"`   // sort | reduce | limit
-	N       int      `json:"n"`
-	Desc    bool     `json:"desc"`
-	Limit   int64    `json:"limit"`
-	Keys    []int64  `json:"keys"` // per input row
-	Vals    []int64  `json:"vals"`
-	Outcome string   `json:"outcome"`
-	OutIDs  []int    `json:"out_ids"`  // sort / limit: the row numbers in output order
-	OutKeys []int64  `json:"out_keys"` // reduce: group key, count, sum per output row
-	OutCnt  []int64  `json:"out_cnt"`
-	OutSum  []int64  `json:"out_sum"`
+	Mode    string  `json:"mode"` // sweep
+	Op      string  `json:"op"`   // sort | reduce | limit
+	N       int     `json:"n"`
+	Desc    bool    `json:"desc"`
+	Limit   int64   `json:"limit"`
+	Keys    []int64 `json:"keys"` // per input row
+	Vals    []int64 `json:"vals"`
+	Outcome string  `json:"outcome"`
+	OutIDs  []int   `json:"out_ids"`  // sort / limit: the row numbers in output order
+	OutKeys []int64 `json:"out_keys"` // reduce: group key, count, sum per output row
+	OutCnt  []int64 `json:"out_cnt"`
+	OutSum  []int64 `json:"out_sum"`
 }
 
 func runSweep(r *rand.Rand, op string, n int) sweepCase {
